@@ -528,3 +528,77 @@ class IndexOracle:
         if not np.array_equal(mask, changed):
             return ["C05:write-read-disagree:%s:%s" % (sig, kinds)]
         return []
+
+
+# ------------------------------------------------------------------------------------ C08
+class PermOracle:
+    """C08: f(permute x) = permute(f x) label for label, and for trace-wise functions
+    f(x)[others = k] = f(x[others = k])"""
+    TRACEWISE = {"integrate", "cumulative_integrate", "left_shift", "interp", "apodize", "phase", "phase_cycle",
+                 "fourier_transform", "inverse_fourier_transform", "trace_local", "normalize", "reference"}
+    NOT_LOCAL = {"ndalign"}
+
+    def pre(self, op, st):
+        if op["op"] != "proc" or op["obj"] not in st.objs:
+            return None
+        return st.objs[op["obj"]].copy()
+
+    def post(self, op, st, line, pre):
+        if pre is None or line["outcome"] != "ok" or not pre._is_folded:
+            return []
+        f, kw = op["f"], op["kw"]
+        sig = op_sig(op) + (":" + kw["func"] if f == "trace_local" else "")
+        per_trace = isinstance(kw.get("p0"), list) or isinstance(kw.get("p1"), list)
+        out = []
+        res = st.objs[op["out"]]
+        want = label_dict(res)
+        if want is None:
+            return ["C08:result-unreadable:" + sig]
+        dims = list(pre.dims)
+        # (a) every rotation of the axis order (and the reversal)
+        if len(dims) >= 2 and not per_trace:
+            orders = [dims[k:] + dims[:k] for k in range(1, len(dims))] + [list(reversed(dims))]
+            for o in orders:
+                x2 = pre.copy()
+                x2.reorder(o)
+                kw2 = kw
+                if f == "average" and isinstance(kw.get("axis"), int):
+                    kw2 = dict(kw, axis=dims[kw["axis"]])
+                if f == "calculate_enhancement" and x2.dims[0] != "Power":
+                    continue
+                try:
+                    r2 = st._proc(f, x2, kw2)
+                except Exception as e:  # noqa: BLE001
+                    out.append("C08:raises-on-permuted-input:%s" % sig)
+                    break
+                if not dict_close(want, label_dict(r2)):
+                    out.append("C08:depends-on-axis-order:%s" % sig)
+                    break
+        # (b) trace locality
+        dim = kw.get("dim")
+        g = kw.get("func")
+        if (f in self.TRACEWISE and g not in self.NOT_LOCAL and dim in dims and len(dims) >= 2
+                and not (f == "normalize" and kw.get("dim") is None)):
+            others = [d for d in dims if d != dim]
+            idx = {d: (len(pre.coords[d]) - 1) // 2 for d in others}
+            args = []
+            for d in others:
+                args += [d, idx[d]]
+            sub = pre[tuple(args)]
+            kw3 = kw
+            if per_trace:
+                j = 0
+                for d in others:
+                    j = j * len(pre.coords[d]) + idx[d]
+                kw3 = dict(kw, p0=kw["p0"][j] if isinstance(kw["p0"], list) else kw["p0"],
+                           p1=kw["p1"][j] if isinstance(kw["p1"], list) else kw["p1"])
+            try:
+                rs = st._proc(f, sub, kw3)
+                got = label_dict(rs)
+                sel = {d: np.asarray(pre.coords[d]).tolist()[idx[d]] for d in others}
+                want_sub = {k: v for k, v in want.items() if all((d, c) in k for d, c in sel.items())}
+                if not dict_close(want_sub, got):
+                    out.append("C08:not-trace-local:%s" % sig)
+            except Exception:  # noqa: BLE001
+                out.append("C08:raises-on-single-trace:%s" % sig)
+        return out
